@@ -136,8 +136,10 @@ PROPS = {
     },
     "C04": {
         "ops": [("c03", "RunC03", {"quick": 300, "thorough": 5000}), ("sys", "RunSys", {"quick": 80, "thorough": 1500}),
-                ("fh", "RunFH", {"quick": 240, "thorough": 4000})],
-        "rule": "op fh (fork histories): two honest peers deliver filter hashes, the chain reorganises within last-N, both prove the new tip, every filter-hash "
+                ("fh", "RunFH", {"quick": 240, "thorough": 4000}), ("c08", "RunC08", {"quick": 3, "thorough": 30})],
+        "rule": "op c08 (whole-client histories whose fork switch really rolls back: pending records above the fork point, abandoned blocks already "
+                "indexed, filter progress rewound below the fork point by a partial set_scripts): after the switch and continued syncing the index must equal "
+                "the new chain (class C04-index-keeps-abandoned-branch); op fh (fork histories): two honest peers deliver filter hashes, the chain reorganises within last-N, both prove the new tip, every filter-hash "
                 "request is answered from the new branch: no ban, and the hashes trusted afterwards are the new branch's; "
                 "op c03: storage-level histories with rollback_to_block followed by a different branch, every step's dump compared with Model/Store.v and (static script "
                 "set) the cell index with the ground-truth UTXO set of the branch that is current; op sys: whole-client histories with competing chains, fork switches "
